@@ -89,6 +89,14 @@ class FakeTest:
         return self.id()
 
 
+def tnum(test):
+    """number of a test: the harness's own tests carry it; the broken-runner ErrorHolder is 999"""
+    n = getattr(test, "n", None)
+    if n is not None:
+        return n
+    return 999 if test.id() == "broken-runner" else 998
+
+
 class Target:
     """The shared target: every method is a yield point, logs (thread, call, raised) and raises when
     the calling thread's fault plan says so."""
@@ -112,31 +120,31 @@ class Target:
         self._call("time", enc_time(t))
 
     def startTest(self, test):
-        self._call("startTest", test.n)
+        self._call("startTest", tnum(test))
 
     def stopTest(self, test):
-        self._call("stopTest", test.n)
+        self._call("stopTest", tnum(test))
 
     def tags(self, new, gone):
         self._call("tags", sorted(new), sorted(gone))
 
     def addSuccess(self, test, details=None):
-        self._call("out", 0, test.n)
+        self._call("out", 0, tnum(test))
 
     def addError(self, test, err=None, details=None):
-        self._call("out", 1, test.n)
+        self._call("out", 1, tnum(test))
 
     def addFailure(self, test, err=None, details=None):
-        self._call("out", 2, test.n)
+        self._call("out", 2, tnum(test))
 
     def addSkip(self, test, reason=None, details=None):
-        self._call("out", 3, test.n)
+        self._call("out", 3, tnum(test))
 
     def addExpectedFailure(self, test, err=None, details=None):
-        self._call("out", 4, test.n)
+        self._call("out", 4, tnum(test))
 
     def addUnexpectedSuccess(self, test, details=None):
-        self._call("out", 5, test.n)
+        self._call("out", 5, tnum(test))
 
     def startTestRun(self):
         self._call("guard", 0)
@@ -502,6 +510,29 @@ def shrink(case):
         yield dict(case, sched=s[1:])
 
 
+def wf_script(script):
+    """the harness's copy of Spec.C12.wf_script, for the input distribution only"""
+    ph = None
+    post = False
+    for c in script:
+        k = c[0]
+        if k == "start":
+            if ph is not None:
+                return False
+            ph, post = c[1], False
+        elif k == "out":
+            if ph is None or post or ph != c[2]:
+                return False
+            post = True
+        elif k == "stop":
+            if ph is None or ph != c[1]:
+                return False
+            ph = None
+        elif k == "guard" and c[1] == 0 and ph is not None:
+            return False
+    return True
+
+
 def distribution(cases):
     d = {"threads": {}, "tests_per_thread": {}, "faults": {}, "sched_len": {}, "base_exception_faults": 0,
          "malformed_scripts": 0, "with_tags": 0, "with_guarded_calls": 0}
@@ -516,6 +547,7 @@ def distribution(cases):
         for th in c["threads"]:
             n = sum(1 for x in th["script"] if x[0] == "out")
             d["tests_per_thread"][n] = d["tests_per_thread"].get(n, 0) + 1
+        d["malformed_scripts"] += any(not wf_script(th["script"]) for th in c["threads"])
         d["with_tags"] += any(x[0] == "tags" for th in c["threads"] for x in th["script"])
         d["with_guarded_calls"] += any(x[0] == "guard" for th in c["threads"] for x in th["script"])
     return d
